@@ -5,6 +5,8 @@
 From Coq Require Import List Arith NArith Reals Lra PrimFloat.
 Import ListNotations.
 From Ticc Require Import Model.Viterbi Model.InstR Model.InstF Proofs.ViterbiShape Proofs.ViterbiR Corr.RunViterbi.
+From Ticc Require Proofs.ViterbiZ.
+From Coq Require Import ZArith.
 
 (* exactly one label per point, every label an integer in [0,K) - for EVERY
    carrier and comparison (so also for binary64 with NaN / inf / -0) *)
@@ -52,6 +54,30 @@ Proof.
   apply viterbi_optimal; try assumption. apply Forall_repeat. exact Hb.
 Qed.
 Print Assumptions C01_scalar.
+
+(* the same two theorems over the integers (an executable carrier) *)
+Theorem C01_optimal_Z : forall (K : nat) (rows : list (list Z)) (betas : list Z),
+  (0 < K)%nat -> (N.of_nat K <= 65536)%N -> rows <> [] -> wf_rows K rows -> Forall (fun b => 0 <= b)%Z betas ->
+  snd (viterbi 0%Z Z.add Z.sub Z.ltb K rows betas) = pcost 0%Z Z.add rows betas (fst (viterbi 0%Z Z.add Z.sub Z.ltb K rows betas)) /\
+  forall path : list nat, length path = length rows -> wf_path K path ->
+  (snd (viterbi 0%Z Z.add Z.sub Z.ltb K rows betas) <= pcost 0%Z Z.add rows betas path)%Z.
+Proof.
+  intros K rows betas HK HK16 Hne Hwf Hb. split.
+  - apply ViterbiZ.viterbi_cost_is_path_cost; assumption.
+  - intros path Hl Hp. apply ViterbiZ.viterbi_optimal; assumption.
+Qed.
+Print Assumptions C01_optimal_Z.
+
+(* ... on which theorem and computation can be put side by side: for a 3x2 table with a tie the
+   reported cost is the cost of the returned labels and no larger than the cost of any of the 8 paths *)
+Example C01_example_Z :
+  let rows := [[1; 1]; [0; 2]; [3; 0]]%Z in let betas := [1; 1; 1]%Z in
+  let r := viterbi 0%Z Z.add Z.sub Z.ltb 2 rows betas in
+  r = ([0; 0; 1]%nat, 2%Z) /\
+  forallb (fun p => Z.leb (snd r) (pcost 0%Z Z.add rows betas p))
+          [[0;0;0];[0;0;1];[0;1;0];[0;1;1];[1;0;0];[1;0;1];[1;1;0];[1;1;1]]%nat = true.
+Proof. vm_compute. split; reflexivity. Qed.
+Print Assumptions C01_example_Z.
 
 (* why beta >= 0 is a hypothesis: with beta = -1 the kernel reports a cost that
    is not the cost of the labels it returns (binary64 instance, computed) *)
